@@ -155,46 +155,53 @@ func vC11Valid(left, right []vC11Person, cmp IndividualComparisons, minWS, prefe
 
 var vC11Thresholds = [][2]float64{{-1, -1}, {0, 0}, {1, 1}, {0, 1}, {1, 0}}
 
-// VerifC11_Compare: cs%8 = scenario, cs/8%4 = Jobs (0, 1, 2, 3), cs/32%6 = thresholds (default, a
-// symbolic MinimumWeightedSimilarity, 0/0, 1/1, 0/1, 1/0). The harness runs under the schedule
-// explorer: every path is one schedule (within the pre-emption budget) and one solver-decided
-// outcome of the symbolic comparisons.
-func VerifC11_Compare(cs int) {
-	// cs 0..31: default thresholds, Jobs 0..3; cs 32..47: symbolic MinimumWeightedSimilarity with
-	// Jobs 0 and 1 (with more jobs the symbolic scores times the schedules do not finish in an hour);
-	// cs 48..175: the fixed threshold table, Jobs 0..3
-	scenario := cs % 8
-	jobs, t := []int{0, 1, 2, 3}[cs/8%4], 0
-	switch {
-	case cs >= 48:
-		t = 2 + (cs-48)/32%4
-		jobs = []int{0, 1, 2, 3}[(cs-48)/8%4]
-	case cs >= 32:
-		t = 1
-		jobs = (cs - 32) / 8 % 2
-	}
+var vC11Scenarios = []string{"renumbered-copy", "shared-pointers", "duplicated-unique-id", "identical-twins", "empty-left", "empty-right", "crossed-unique-id", "symbolic-name"}
+
+// vC11Check runs one comparison and asserts validity and schedule independence.
+func vC11Check(scenario, jobs int, minWS, preferAbove float64, concrete bool) {
 	left, right, family := vC11Inputs(scenario)
-	d := NewSimilarityOptions()
-	minWS, preferAbove := d.MinimumWeightedSimilarity, d.PreferPointerAbove
-	if t == 1 {
-		minWS = VsFloat("minimum", 0, 1)
-	} else if t > 1 {
-		minWS, preferAbove = vC11Thresholds[t-1][0], vC11Thresholds[t-1][1]
-	}
 	pairs, cmp := vC11Run(left, right, family, jobs, minWS, preferAbove)
-	VsObserve(vC11Text(pairs))
+	// Scenario 2 (two left people claim the same right person by unique id) and scenario 3 (twins)
+	// have tied candidates: which one wins may depend on the schedule, the matching is valid either way
+	// (and the native replay, whose schedule is the Go runtime's, may see another one).
+	tied := scenario == 2 || scenario == 3
+	if tied {
+		VsObserve(len(pairs))
+	} else {
+		VsObserve(vC11Text(pairs))
+	}
 	VsReach("individuals-compared")
-	VsClassSet([]string{"renumbered-copy", "shared-pointers", "duplicated-unique-id", "identical-twins", "empty-left", "empty-right", "crossed-unique-id", "symbolic-name"}[scenario])
+	VsClassSet(vC11Scenarios[scenario])
 	vC11Valid(left, right, cmp, minWS, preferAbove)
-	// the schedule must not matter: identical on every path of this case (ties excluded)
-	if scenario != 3 && scenario != 7 && t != 1 {
+	// the schedule must not matter: identical on every path of this case
+	if !tied && scenario != 7 && concrete {
 		VsEmit("matching", vC11Text(pairs))
 	}
 	// and equal to the sequential result on fresh documents
-	if jobs > 1 && scenario != 3 {
+	if jobs > 1 && !tied {
 		seq, _ := vC11Run(left, right, family, 1, minWS, preferAbove)
 		VsAssert("same-matching-as-the-sequential-run", vC11Text(seq) == vC11Text(pairs))
 	}
+}
+
+// VerifC11_Compare: cs%8 = scenario, cs/8%4 = Jobs (0, 1, 2, 3), cs/32%5 = thresholds (default,
+// 0/0, 1/1, 0/1, 1/0). The harness runs under the schedule explorer: every path is one schedule
+// (within the pre-emption budget).
+func VerifC11_Compare(cs int) {
+	d := NewSimilarityOptions()
+	minWS, preferAbove := d.MinimumWeightedSimilarity, d.PreferPointerAbove
+	if t := cs / 32 % 5; t > 0 {
+		minWS, preferAbove = vC11Thresholds[t][0], vC11Thresholds[t][1]
+	}
+	vC11Check(cs%8, []int{0, 1, 2, 3}[cs/8%4], minWS, preferAbove, true)
+}
+
+// VerifC11_Threshold: MinimumWeightedSimilarity is symbolic in [0, 1] (every pair must meet the
+// threshold the solver picks, or share an id or a trusted pointer); deterministic schedule, because
+// the symbolic scores times the schedules do not finish. cs%8 = scenario, cs/8%3 = Jobs 1, 2, 3.
+func VerifC11_Threshold(cs int) {
+	d := NewSimilarityOptions()
+	vC11Check(cs%8, cs/8%3+1, VsFloat("minimum", 0, 1), d.PreferPointerAbove, false)
 }
 
 // VerifC11_Races: the comparison with 2 and 3 jobs under the happens-before monitor: every pair of
